@@ -33,13 +33,13 @@ def canonical_rrset_order(rdtype, rdatas):
     return sorted(set(canonical_rdata(rdtype, r) for r in rdatas))
 
 
-def name_positions(rdtype, rdata):
+def name_positions(rdtype, rdata, rdclass=1):
     """list of (start, end) of embedded names in uncompressed rdata (any type with a layout)"""
-    if rdtype not in W.RDATA_NAME_LAYOUT:
+    if W.layout_for(rdtype, rdclass) is None:
         return []
     out = []
     pos = 0
-    for kind, v in W.split_rdata(rdtype, 1, rdata, 0, len(rdata)):
+    for kind, v in W.split_rdata(rdtype, rdclass, rdata, 0, len(rdata)):
         if kind == "raw":
             pos += len(v)
         else:
